@@ -80,6 +80,7 @@ func (a *Actor) run(p *vos.Proc, c Call) {
 		hist = len(w.Hist) - 1
 	}
 	var err error
+	faultBefore := p.FaultFired != nil
 	needStack := c.Kind != "open" && c.Kind != "fresh" && c.Kind != "reopen"
 	if needStack && a.St == nil {
 		a.Results = append(a.Results, c.String()+" -> skipped (no handle)")
@@ -179,7 +180,32 @@ func (a *Actor) run(p *vos.Proc, c Call) {
 			h.Err = res
 		}
 	}
-	a.judge(p, c, ci, err)
+	if !faultBefore && p.FaultFired != nil {
+		// an injected I/O error hit this call: any error is a legitimate result (C04's
+		// result rules speak about runs without I/O faults); what stays in force is
+		// that the call did not panic, released what it took (M-own at End), left the
+		// handle with a consistent view (M-view) and the directory well-formed (M-dir)
+		a.Results[len(a.Results)-1] += fmt.Sprintf(" [injected fault at %s]", p.FaultFired.String())
+		w.FaultedCalls++
+		if pe, ok := err.(*rtx.PanicError); ok {
+			w.violate([]string{"C16"}, "panic-after-io-fault-in-"+c.Kind+"|"+topFrame(pe.Stack), "p%d %s panicked after an injected I/O error at %s: %v\n%s", p.ID, c.String(), p.FaultFired.String(), pe.Val, trimStack(pe.Stack))
+		} else if err == nil && !ci.Applied && (c.Kind == "add" || c.Kind == "addmulti") {
+			w.violate([]string{"C04"}, "add-acked-but-not-committed|after-io-fault", "p%d %s returned nil after an injected I/O error at %s but no commit of its transaction was observed", p.ID, c.String(), p.FaultFired.String())
+		}
+		if err != nil {
+			w.FaultErrors++
+			if hist >= 0 {
+				w.Hist[hist].Indeterminate = true
+			}
+		}
+		if c.Kind == "open" || c.Kind == "reopen" {
+			if err != nil && a.St != nil {
+				a.St = nil
+			}
+		}
+	} else {
+		a.judge(p, c, ci, err)
+	}
 	if err == nil && ci.Applied && (c.Kind == "add" || c.Kind == "addmulti") {
 		a.minVersion = ci.VersionIdx
 	}
